@@ -9,6 +9,7 @@ from specs import sigblock as SB
 
 APKF = "androguard/core/apk/__init__.py"
 META = {
+    "technique": 'contract-based deductive verification: symbolic execution of the real functions against sidecar contracts (z3/cvc5) for the proved units; bounded contract evaluation (enumerated scope / independent writer) for the rest',
     "level": "other",
     "partial": True,
     "level_text": "Proof: parse_signatures_or_digests on sequences of 0..2 elements whose ids and digest bytes are symbolic returns "
